@@ -2,6 +2,7 @@
 only.  Token-matched handler/ACK accounting over generated histories with
 colliding ids, binary events, several handler styles; both servers.
 """
+from vlib import core
 from vlib import gen
 from vlib import refcodec as R
 from vlib import scenario as S
@@ -692,6 +693,83 @@ def last_event_then_leave(ctx, k):
         d.close()
 
 
+def binary_event_across_sibling_end(ctx, k):
+    """A client connected to two namespaces is half-way through a binary
+    event on one of them (header received, attachments to come) when its
+    *other* namespace ends (server disconnect() or its own DISCONNECT): the
+    event is still handled once and acknowledged when its last attachment
+    arrives."""
+    from vlib import drive as D
+    rng = ctx.case_rng(13 * 10 ** 7 + k)
+    kind = 'sync' if k % 2 == 0 else 'async'
+    how = rng.choice(['server_disconnect', 'client_disconnect'])
+    natt = rng.choice([1, 2, 3])
+    keep = rng.randint(1, natt)      # header + keep-1 attachments first
+    pid = rng.choice([None, 8])
+    d = D.make_drive(kind, async_handlers=rng.random() < 0.5)
+    log = []
+    ret = rng.choice(['ok', None, {'b': b'z'}])
+    if kind == 'async':
+        async def ev(sid, *a):
+            log.append(('event', sid, list(a)))
+            return ret
+    else:
+        def ev(sid, *a):
+            log.append(('event', sid, list(a)))
+            return ret
+    d.sio.on('ev', ev, namespace='/a')
+    d.sio.on('disconnect', lambda sid, reason: log.append(
+        ('disconnect', sid, reason)), namespace='/b')
+    try:
+        t = d.open()
+        t.connect('/a')
+        t.connect('/b')
+        sid_a, sid_b = t.sids['/a'], t.sids['/b']
+        blobs = [bytes([66 + i]) * 3 for i in range(natt)]
+        text, atts = R.encode(R.EVENT, '/a', pid, ['ev'] + blobs)
+        frames = [text] + atts
+        for f in frames[:keep]:
+            t.feed(f)
+        if how == 'server_disconnect':
+            d.api('disconnect', sid_b, namespace='/b')
+        else:
+            # (a DISCONNECT of /b between the frames of the /a event would be
+            # taken for an attachment: the client's own DISCONNECT can only
+            # precede the header)
+            how = 'server_disconnect_then_rest'
+            d.api('disconnect', sid_b, namespace='/b')
+        for f in frames[keep:]:
+            t.feed(f)
+        d.join()
+        t.drain()
+        w = {'part': 'binary_event_across_sibling_end', 'case_index': k,
+             'kind': kind, 'attachments': natt, 'frames_before': keep,
+             'id': pid, 'log': core.jsonable(log), 'errors': d.errors()}
+        ctx.count('binary_events_across_a_sibling_end')
+        evs = [x for x in log if x[0] == 'event']
+        acks = [p for p in t.packets if p['type'] in (R.ACK, R.BINARY_ACK)
+                and p['nsp'] == '/a']
+        if d.errors():
+            ctx.violation(None, 'binary event whose sibling namespace ended '
+                          'half-way: exception escaped (%s)' %
+                          d.errors()[0]['exc'], w)
+        elif len(evs) != 1 or evs[0][1] != sid_a or \
+                not R.deep_eq(evs[0][2], blobs):
+            ctx.violation(None, 'a binary event on /a during which the '
+                          'client\'s /b connection was ended by the server '
+                          'invoked its handler %d times' % len(evs), w)
+        elif (pid is None) != (not acks) or (acks and (
+                len(acks) != 1 or acks[0]['id'] != pid or not R.deep_eq(
+                    acks[0]['data'], gen.expected_args(ret)))):
+            ctx.violation(None, 'binary event across the end of a sibling '
+                          'namespace: ACKs %r' % (acks,), w)
+        else:
+            ctx.case(('binary_event_across_sibling_end', kind, natt, keep,
+                      pid), None)
+    finally:
+        d.close()
+
+
 def run_races(ctx, share):
     """Events racing with a disconnect in progress: asyncio server through
     the interleaving explorer of C04 part (b) (scenarios that contain the
@@ -707,6 +785,7 @@ def run_races(ctx, share):
             fault_recovery(ctx, k)
             self_disconnect(ctx, k)
             last_event_then_leave(ctx, k)
+            binary_event_across_sibling_end(ctx, k)
             k += 1
         spec = sp[(k // 8) % len(sp)]
         rng = ctx.case_rng(2 * 10 ** 7 + k)
@@ -735,6 +814,7 @@ def run(ctx):
     ctx.require('handler_fault_recoveries', 10)
     ctx.require('self_disconnect_events', 10)
     ctx.require('last_events_before_leaving', 10)
+    ctx.require('binary_events_across_a_sibling_end', 10)
     ctx.require('racing_events_while_disconnecting', 10)
     run_races(ctx, (ctx.budget or 30) * 0.2)
     k = 0
@@ -745,6 +825,8 @@ def run(ctx):
 
 
 def replay(ctx, w):
+    if w['witness'].get('part') == 'binary_event_across_sibling_end':
+        return binary_event_across_sibling_end(ctx, w['witness']['case_index'])
     if w['witness'].get('part') == 'last_event_then_leave':
         return last_event_then_leave(ctx, w['witness']['case_index'])
     wi = w['witness']
